@@ -83,6 +83,19 @@ def gen_cases(rng, tier):
         values = [bytes([rng.choice(b"xyz")]) * rng.choice([1, 20, 33, 40, 56]) for _ in range(3)]
         ops = hexlib.gen_history(rng, keys, values, rng.randint(2, 14), batch_prob=0.0)
         prune = rng.random() < 0.5
+        twin_probes = []
+        if rng.random() < 0.2:
+            # identical sub-tries under two or three prefixes (inner nodes with reference count >= 2), a pruning trie, and
+            # writes / deletes below them and under a FURTHER prefix with the same tails and values (a write that re-creates
+            # the content of an existing — possibly withheld — node): seeded changes C07o-prune-node-decrements-at-once,
+            # C07o-write-skipped-for-referenced-node
+            tkeys, tvals, setup = hexlib.gen_twin_setup(rng)
+            ops, keys, prune = setup, tkeys, True
+            plen = min(len(k) for k in tkeys if k) if any(tkeys) else 1
+            stored = {bytes.fromhex(o[1]): bytes.fromhex(o[2]) for o in setup}
+            for k0, v0 in list(stored.items())[:4]:
+                fresh = bytes([k0[0] ^ 0x40]) + k0[1:]
+                twin_probes += [["set", fresh.hex(), v0.hex()], ["del", k0.hex()], ["set", k0.hex(), (v0[:-1] + b"!").hex()]]
         probes = []
         for _ in range(10):
             r = rng.random()
@@ -103,7 +116,7 @@ def gen_cases(rng, tier):
                 nk = _nib(bytes.fromhex(k))
                 cut = rng.randint(0, len(nk))
                 probes.append(["travfrom", list(nk[:cut]), list(nk[cut:rng.randint(cut, len(nk))]) + ([rng.randrange(16)] if rng.random() < 0.2 else [])])
-        for p in probes:
+        for p in probes + twin_probes:
             batch = rng.random() < 0.3 and p[0] in ("get", "set", "del", "exists")
             c = {"prune": prune, "ops": ops, "probe": p, "dropseed": rng.randrange(1 << 30), "batch": batch}
             if batch and rng.random() < 0.4:
@@ -332,6 +345,15 @@ def run_case(case):
             res.emit(line, out)
         else:
             res.emit(line, out if not (exc is None and kind in ("set", "del")) else "ok")
+        if exc is None and kind == "set" and probe[2] != "":
+            # a call that SUCCEEDED read every node on the key's path and stored every node it made: the key it wrote is readable
+            try:
+                back = target.get(key)
+                if back != bytes.fromhex(probe[2]):
+                    res.fail("written-key-unreadable", "set(%s) succeeded on the incomplete database, get returns %r" % (key.hex(), back))
+            except Exception as e3:  # noqa
+                res.fail("written-key-unreadable", "set(%s) succeeded on the incomplete database, but get(%s) raises %r: a node the call "
+                         "created was not stored" % (key.hex(), key.hex(), e3))
         if exc is None:
             got = out if kind not in ("set", "del") else "ok root=" + hx(target.root_hash)
             if True:
